@@ -333,3 +333,63 @@ if __name__ == '__main__':
     print(len(us), 'unit types', sum(len(u['names']) for u in us), 'units', n, 'bodies', bad, 'unparsed')
     print(len(scan_quantities()), 'quantity types', scan_other_enums())
     print(us[0]['kinds'])
+
+
+def scan_variable_templates():
+    """Every namespace-scope variable template (primary, explicit or partial specialisation) defined in the headers, with its
+    initialisation kind: 'constant' (constexpr), 'ordered' (explicit specialisation, template <>), 'unordered' (a primary
+    template or partial specialisation with an initialiser: its instantiations are initialised in no defined order), or
+    'decl' (declaration without initialiser).  -> {name: {kind: count}}"""
+    inc = os.path.join(os.environ.get('PHQ_ROOT', '/repo'), 'include', 'PhQ')
+    out = {}
+    for f in sorted(glob.glob(inc + '/**/*.hpp', recursive=True)):
+        s = strip_comments(open(f, encoding='utf-8').read())
+        for m in re.finditer(r'template\s*<([^<>]*(?:<[^<>]*>[^<>]*)*)>\s*inline\s+((?:constexpr\s+)?)((?:const\s+)?)', s):
+            params, cx = m.group(1), m.group(2)
+            i = m.end()
+            depth = 0
+            j = i
+            while j < len(s):
+                c = s[j]
+                if c == '<':
+                    depth += 1
+                elif c == '>':
+                    depth -= 1
+                elif c == '(' :
+                    break
+                elif depth == 0 and c in '{=;':
+                    break
+                j += 1
+            if j >= len(s) or s[j] == '(':
+                continue                      # a function template
+            decl = ' '.join(s[i:j].split())
+            term = s[j]
+            spec = ''
+            if decl.endswith('>'):            # trailing template-argument list of a specialisation
+                d = 0
+                k = len(decl) - 1
+                while k >= 0:
+                    if decl[k] == '>':
+                        d += 1
+                    elif decl[k] == '<':
+                        d -= 1
+                        if d == 0:
+                            break
+                    k -= 1
+                spec = decl[k:]
+                decl = decl[:k].rstrip()
+            mm = re.search(r'([A-Za-z_][\w:]*)$', decl)
+            if not mm:
+                continue
+            name = mm.group(1).split('::')[-1]
+            if cx:
+                kind = 'constant'
+            elif term == ';' :
+                kind = 'decl'
+            elif params.strip() == '':
+                kind = 'ordered'
+            else:
+                kind = 'unordered'
+            out.setdefault(name, {}).setdefault(kind, 0)
+            out[name][kind] += 1
+    return out
